@@ -251,3 +251,147 @@ Proof.
   rewrite removelast_last.
   exists hl', t. repeat split; auto.
 Qed.
+
+(** * Part D: the main loop *)
+Lemma split_last_two (l : list Z) m : length l = S (S m) ->
+  exists l' x y, l = l' ++ [x; y] /\ length l' = m.
+Proof.
+  intros H. assert (Hne : l <> []) by (intros ->; discriminate).
+  destruct (exists_last Hne) as (l1 & y & ->). rewrite app_length in H. cbn [length] in H.
+  assert (Hne1 : l1 <> []) by (intros ->; cbn in H; lia).
+  destruct (exists_last Hne1) as (l2 & x & ->). rewrite app_length in H. cbn [length] in H.
+  exists l2, x, y. split; [rewrite <- app_assoc; reflexivity|lia].
+Qed.
+
+Lemma core_loop_spec p bl b1 b0 : div_ok p = true ->
+  let b := bl ++ [b1; b0] in wf b -> B <= 2 * b0 ->
+  let V := val b in
+  forall k a a0, wf a -> 0 <= a0 < B -> (length a + 1 = length b + k)%nat ->
+  let T := val (a ++ [a0]) in
+  T < V * B ^ Z.of_nat k ->
+  exists ql af a0f, core_loop p k a a0 b b0 b1 = Ret (ql, af, a0f) /\ wf ql /\ length ql = k /\
+     val ql = T / V /\ wf (af ++ [a0f]) /\ val (af ++ [a0f]) = T mod V.
+Proof.
+  intros Hok b Wb Hnorm V. pose proof B_gt1 as HB.
+  pose proof Wb as Wb'. apply wf_two_inv in Wb' as (Wbl & Hb1 & Hb0).
+  assert (Lb : length b = S (S (length bl))).
+  { unfold b. rewrite app_length. cbn [length]. lia. }
+  assert (HVpos : 0 < V).
+  { unfold V, b. rewrite val_app, val_two. pose proof (val_nonneg bl Wbl).
+    pose proof (B_pow_nat (length bl)). assert (1 <= b1 + B * b0) by nia. nia. }
+  induction k as [|j IH]; intros a a0 Wa Ha0 Hlen T HT.
+  - cbn [core_loop]. exists [], a, a0. split; [reflexivity|].
+    assert (Wt : wf (a ++ [a0])) by (apply wf_app; split; [auto|apply wf_single; exact Ha0]).
+    pose proof (val_nonneg _ Wt) as HT0. fold T in HT0.
+    change (Z.of_nat 0) with 0 in HT. rewrite Z.pow_0_r in HT.
+    repeat split; auto using wf_nil.
+    + cbn [val]. symmetry. apply Z.div_small. lia.
+    + symmetry. apply Z.mod_small. lia.
+  - (* decompose a = lo ++ hl ++ [a2; a1] *)
+    set (lo := firstn j a). set (hi := skipn j a).
+    assert (Ea : a = lo ++ hi) by (symmetry; apply firstn_skipn).
+    assert (Llo : length lo = j) by (unfold lo; rewrite firstn_length; lia).
+    assert (Lhi : length hi = S (S (length bl))) by (unfold hi; rewrite skipn_length; lia).
+    destruct (split_last_two hi (length bl) Lhi) as (hl & a2 & a1 & Ehi & Lhl).
+    assert (Ea' : a = lo ++ hl ++ [a2; a1]) by (rewrite Ea, Ehi; reflexivity).
+    pose proof Wa as Wa'. rewrite Ea in Wa'. apply wf_app in Wa' as [Wlo Whi].
+    set (n := Z.of_nat (length b)).
+    set (U := val (hl ++ [a2; a1]) + a0 * B ^ n).
+    set (Pj := B ^ Z.of_nat j).
+    assert (HPj : 0 < Pj) by (unfold Pj; apply B_pow_nat).
+    pose proof (val_bound lo Wlo) as Vlo. rewrite Llo in Vlo. fold Pj in Vlo.
+    assert (ET : T = val lo + Pj * U).
+    { unfold T, U. rewrite Ea', app_assoc_reverse, val_app, Llo. fold Pj.
+      rewrite val_app, val_single.
+      replace (length (hl ++ [a2; a1])) with (length b)
+        by (rewrite Lb, app_length; cbn [length]; lia).
+      fold n. ring. }
+    assert (HUV : U < V * B).
+    { rewrite Nat2Z.inj_succ, Z.pow_succ_r in HT by lia. fold Pj in HT.
+      assert (Pj * U < Pj * (V * B)) by lia.
+      apply Z.mul_lt_mono_pos_l in H; lia. }
+    assert (Wa2 : wf (lo ++ hl ++ [a2; a1])) by (rewrite <- Ea'; exact Wa).
+    destruct (knuth_step_spec p j lo hl a2 a1 a0 bl b1 b0 Hok Wa2 Wb Llo Lhl Ha0 Hnorm HUV)
+      as (hl' & t & Es & Wh' & Lh' & Vh').
+    fold b n V U in Es, Lh', Vh'.
+    cbn [core_loop].
+    replace (knuth_step p j a a0 b b0 b1) with (knuth_step p j (lo ++ hl ++ [a2; a1]) a0 b b0 b1)
+      by (rewrite <- Ea'; reflexivity).
+    rewrite Es. cbn [bind].
+    apply wf_app in Wh' as [Whl' Wt]. apply wf_cons in Wt as [Ht _]. unfold digit in Ht.
+    set (R := U mod V) in *.
+    pose proof (Z.mod_pos_bound U V HVpos) as HR. fold R in HR.
+    assert (HU0 : 0 <= U).
+    { unfold U. pose proof (val_nonneg _ (proj2 (proj1 (wf_app _ _) Wa2))).
+      pose proof (B_pow_nat (length b)). fold n in H0. nia. }
+    assert (Hq0 : 0 <= U / V < B).
+    { split; [apply Z.div_pos; lia|apply Z.div_lt_upper_bound; lia]. }
+    assert (ET' : val ((lo ++ hl') ++ [t]) = val lo + Pj * R).
+    { rewrite <- app_assoc, val_app, Llo. fold Pj. rewrite Vh'. reflexivity. }
+    destruct (IH (lo ++ hl') t) as (ql & af & a0f & Ec & Wql & Lql & Vql & Waf & Vaf).
+    + apply wf_app; split; auto.
+    + exact Ht.
+    + rewrite app_length in Lh'. cbn [length] in Lh'. rewrite app_length. lia.
+    + rewrite ET'. fold Pj. nia.
+    + rewrite Ec. cbn [bind]. eexists _, _, _. split; [reflexivity|].
+      pose proof (Z.div_mod U V ltac:(lia)) as HdmU. fold R in HdmU.
+      assert (ET2 : T = val ((lo ++ hl') ++ [t]) + (Pj * (U / V)) * V).
+      { rewrite ET, ET', HdmU at 1. ring. }
+      split; [apply wf_app; split; [exact Wql|apply wf_single; exact Hq0]|].
+      split; [rewrite app_length; cbn [length]; lia|].
+      split.
+      * rewrite val_app, val_single, Lql, Vql. fold Pj. rewrite ET2.
+        rewrite Z.div_add by lia. reflexivity.
+      * split; [exact Waf|]. rewrite Vaf, ET2. rewrite Z.mod_add by lia. reflexivity.
+Qed.
+
+(** * Part E: div_rem_core *)
+Theorem div_rem_core_spec p a b : div_ok p = true -> wf a -> wf b ->
+  (2 <= length b <= length a)%nat -> B <= 2 * last b 0 ->
+  div_rem_core p a b = Ret (enc (val a / val b), enc (val a mod val b)).
+Proof.
+  intros Hok Wa Wb Hlen Hnorm. pose proof B_gt1 as HB.
+  destruct (length b) as [|[|m]] eqn:Lb; try lia.
+  destruct (split_last_two b m Lb) as (bl & b1 & b0 & Eb & Lbl).
+  rewrite Eb in Hnorm.
+  replace (bl ++ [b1; b0]) with ((bl ++ [b1]) ++ [b0]) in Hnorm by (rewrite <- app_assoc; reflexivity).
+  rewrite last_last in Hnorm.
+  unfold div_rem_core. rewrite Lb.
+  replace ((S (S m) <=? length a)%nat && (1 <? S (S m))%nat) with true
+    by (symmetry; apply andb_true_iff; split; [apply Nat.leb_le; lia|apply Nat.ltb_lt; lia]).
+  cbn [assert_ bind].
+  assert (Erev : rev b = b0 :: b1 :: rev bl) by (rewrite Eb, rev_app_distr; reflexivity).
+  rewrite Erev.
+  replace (B / 2 <=? b0) with true by (symmetry; apply Z.leb_le; lia).
+  cbn [assert_ bind].
+  pose proof Wb as Wb'. rewrite Eb in Wb'. pose proof Wb' as Wb2.
+  apply wf_two_inv in Wb2 as (Wbl & Hb1 & Hb0).
+  set (k := (length a - S (S m) + 1)%nat).
+  assert (Wa0 : wf (a ++ [0])) by (apply wf_app; split; [auto|apply wf_single; unfold digit; lia]).
+  assert (ET : val (a ++ [0]) = val a) by (rewrite val_app, val_single; ring).
+  assert (HVl : b0 * B ^ Z.of_nat (S m) <= val b).
+  { rewrite Eb, val_app, val_two, Lbl. pose proof (val_nonneg bl Wbl).
+    rewrite Nat2Z.inj_succ, Z.pow_succ_r by lia. pose proof (B_pow_nat m). nia. }
+  destruct (core_loop_spec p bl b1 b0 Hok Wb' Hnorm k a 0 Wa ltac:(lia)) as
+    (ql & af & a0f & Ec & Wql & Lql & Vql & Waf & Vaf).
+  { rewrite <- Eb, Lb. unfold k. lia. }
+  { rewrite ET, <- Eb. pose proof (val_bound a Wa) as Va.
+    replace (Z.of_nat (length a)) with (Z.of_nat (S m) + Z.of_nat k) in Va by (unfold k; lia).
+    rewrite Z.pow_add_r in Va by lia.
+    pose proof (B_pow_nat (S m)). pose proof (B_pow_nat k).
+    assert (B ^ Z.of_nat (S m) * B ^ Z.of_nat k <= val b * B ^ Z.of_nat k)
+      by (apply Z.mul_le_mono_nonneg_r; nia).
+    lia. }
+  rewrite <- Eb in Ec. rewrite Ec. cbn [bind].
+  rewrite ET, <- Eb in Vql, Vaf.
+  assert (HVpos : 0 < val b) by (pose proof (B_pow_nat (S m)); nia).
+  pose proof (Z.mod_pos_bound (val a) (val b) HVpos) as HR.
+  rewrite <- (enc_strip (af ++ [a0f])) by exact Waf. rewrite Vaf.
+  assert (Cb : canon b).
+  { rewrite Eb. replace (bl ++ [b1; b0]) with ((bl ++ [b1]) ++ [b0]) by (rewrite <- app_assoc; reflexivity).
+    apply canon_app_last; [apply wf_app; split; [auto|apply wf_single; exact Hb1]|exact Hb0|lia]. }
+  rewrite cmp_slice_spec by (auto using enc_canon). cbn [bind].
+  rewrite enc_val by lia.
+  replace (val a mod val b ?= val b) with Lt by (symmetry; apply Z.compare_lt_iff; lia).
+  cbn [assert_ bind]. rewrite <- enc_strip by exact Wql. rewrite Vql. reflexivity.
+Qed.
